@@ -244,7 +244,7 @@ func TestC16(t *testing.T) {
 						err = quickbuilder.Store(ls, func(qb *quickbuilder.Builder) error {
 							m := map[string]quickbuilder.Node{}
 							for k, v := range model {
-								m[k] = qnode{v, int64(sizes[k])}
+								m[k] = qnode{v, int64(sizes[k]), false}
 							}
 							f := qb.NewBytesFile([]byte("quick file content that is long enough"))
 							m["extra-file"] = f
